@@ -1152,9 +1152,7 @@ class Interp:
 
     def identical(self, a, b):
         if a is None or b is None:
-            if isinstance(a, Opaque) or isinstance(b, Opaque):
-                o = a if isinstance(a, Opaque) else b
-                return self.ctx.upred('isnone', o.name)
+            # an Opaque value is never None (specs say OneOf(None, OpaqueT) where None is possible)
             return a is None and b is None
         if isinstance(a, bool) and isinstance(b, bool):
             return a == b
@@ -1757,6 +1755,7 @@ class Interp:
             for et in a.may_raise:
                 d = ctx.branch(ctx.fresh('raises_%s' % et, BoolS))
                 if d:
+                    ctx.ghost['raised_by:' + ftxt] = True
                     raise PyRaise(et, ExcInst(et))
         pre = snapshot(cenv, {})
         for path in a.modifies:
@@ -1971,6 +1970,12 @@ class Interp:
         return call_pymethod(self, obj, name, args, kwargs)
 
     def ex_ListComp(self, e, env):
+        # a comprehension over an opaque container is an opaque list (its elements are never
+        # inspected; typical use: building a message)
+        if len(e.generators) == 1 and not e.generators[0].ifs:
+            itv = self.eval(e.generators[0].iter, env)
+            if isinstance(itv, Opaque):
+                return Opaque('listcomp')
         return list(self.comp(e, env))
 
     def ex_GeneratorExp(self, e, env):
@@ -2061,4 +2066,4 @@ BUILTINS = {'len', 'range', 'isinstance', 'abs', 'min', 'max', 'float', 'int', '
             'getattr', 'hasattr', 'type', 'repr', 'id', 'callable', 'reversed', 'slice', 'iter',
             'next', 'frozenset', 'complex', 'round', 'divmod', 'issubclass', 'setattr', 'map',
             'old', 'implies', 'iff', 'ite', 'Sum', 'is_none', 'is_inf', 'is_nan', 'same_object',
-            'arr_eq', 'ghost', 'fp_finite', 'is_view', 'is_scalar', 'is_vector', 'approx', 'same_fp', 'same_fp_bool'}
+            'arr_eq', 'ghost', 'fp_finite', 'is_view', 'is_scalar', 'is_vector', 'approx', 'same_fp', 'same_fp_bool', 'exceeds', 'below'}
